@@ -281,13 +281,13 @@ RESET_TIMER:
 	if trd, ok := s.rd.Load().(time.Time); ok && !trd.IsZero() {
 		if timeout == nil {
 			timeout = time.NewTimer(time.Until(trd))
-			c = timeout.C
 			defer timeout.Stop()
 		} else {
 			// Pre-Go 1.23: Reset does not drain the channel;
 			// callers must drain at the goto-site before arriving here.
 			timeout.Reset(time.Until(trd))
 		}
+		c = timeout.C // also re-enables the case after the deadline had been cleared
 	} else if timeout != nil {
 		timeout.Stop()
 		c = nil // disable timeout select case
@@ -350,8 +350,10 @@ RESET_TIMER:
 					default:
 					}
 				}
-				goto RESET_TIMER
 			}
+			// the event may announce a deadline set while this call was
+			// blocked without one: always re-read the deadline
+			goto RESET_TIMER
 		case <-c:
 			return 0, errors.WithStack(errTimeout)
 		case <-s.chSocketReadError:
@@ -374,13 +376,13 @@ RESET_TIMER:
 	if twd, ok := s.wd.Load().(time.Time); ok && !twd.IsZero() {
 		if timeout == nil {
 			timeout = time.NewTimer(time.Until(twd))
-			c = timeout.C
 			defer timeout.Stop()
 		} else {
 			// Pre-Go 1.23: Reset does not drain the channel;
 			// callers must drain at the goto-site before arriving here.
 			timeout.Reset(time.Until(twd))
 		}
+		c = timeout.C // also re-enables the case after the deadline had been cleared
 	} else if timeout != nil {
 		timeout.Stop()
 		c = nil // disable timeout select case
@@ -441,8 +443,10 @@ RESET_TIMER:
 					default:
 					}
 				}
-				goto RESET_TIMER
 			}
+			// the event may announce a deadline set while this call was
+			// blocked without one: always re-read the deadline
+			goto RESET_TIMER
 		case <-c:
 			return 0, errors.WithStack(errTimeout)
 		case <-s.chSocketWriteError:
